@@ -29,7 +29,8 @@ PROPERTIES = {
     ),
     "C06": dict(
         modules=["contracts.c06_input_types", "contracts.c06_defaults", "contracts.c18_names", "contracts.c09_pruning", "contracts.c04_modules"],
-        bounded=[_bounded.lazy("contracts.e2e_scalars", "bounded_scalar_positions"), _bounded.lazy("contracts.c09_pruning", "bounded_pruning"), _bounded.lazy("contracts.e2e_variables", "bounded_variables")],
+        bounded=[_bounded.lazy("contracts.e2e_scalars", "bounded_scalar_positions"), _bounded.lazy("contracts.c09_pruning", "bounded_pruning"), _bounded.lazy("contracts.e2e_variables", "bounded_variables"),
+                 _bounded.lazy("contracts.c11_multipart", "bounded_agreement")],
         explanation="input type translator and default-literal translator against the image/coercion spec functions, by structural induction",
         assumptions=["acceptance/refusal of concrete values by the emitted annotations is pydantic's (assumed contract)"],
     ),
